@@ -66,6 +66,17 @@ fn case_json(table: usize, prefix: &str, regs: &[(usize, usize)], method: usize,
     ])
 }
 
+/// The server identity the router under test is configured with: a function of the table, so that a replay
+/// file reproduces it. Among them the empty identity and the crate's own default.
+fn server_id_for(prefix: &str, regs: &[(usize, usize)]) -> &'static str {
+    const IDS: [&str; 6] = ["srv-under-test", "", "srv-under-test", "Firecracker API", "x y/1 (z)", "srv-under-test"];
+    let mut f = Fp::new().s(prefix);
+    for (m, p) in regs {
+        f = f.u((*m * 8 + *p) as u64);
+    }
+    IDS[(f.0 % IDS.len() as u64) as usize]
+}
+
 /// Builds the table, checks registration results, then dispatches every request of `uris`.
 fn check_table(ctx: &mut Ctx, prefix: &str, regs: &[(usize, usize)], uris: &[String], only: Option<(usize, &str)>) -> bool {
     check_table_t(ctx, 0, prefix, regs, uris, only)
@@ -74,7 +85,10 @@ fn check_table(ctx: &mut Ctx, prefix: &str, regs: &[(usize, usize)], uris: &[Str
 fn check_table_t(ctx: &mut Ctx, table: usize, prefix: &str, regs: &[(usize, usize)], uris: &[String], only: Option<(usize, &str)>) -> bool {
     let paths = paths_of(table);
     let case_json = |prefix: &str, regs: &[(usize, usize)], method: usize, uri: &str| case_json(table, prefix, regs, method, uri);
-    let server_id = "srv-under-test";
+    let server_id = server_id_for(prefix, regs);
+    if server_id.is_empty() {
+        ctx.rep.count("tables_with_the_empty_server_identity");
+    }
     let mut router: HttpRoutes<Log> = HttpRoutes::new(server_id.to_string(), prefix.to_string());
     // M7
     let mut model: Vec<(usize, String, usize)> = Vec::new(); // (method, full path, handler id)
@@ -265,7 +279,7 @@ pub fn run(ctx: &mut Ctx) {
 }
 
 /// One dispatch judged against the route map `model` ((method, full path, handler id)).
-fn judge_dispatch(router: &HttpRoutes<Log>, model: &[(usize, String, usize)], log: &Log, mi: usize, uri: &str) -> Option<(String, String)> {
+fn judge_dispatch(router: &HttpRoutes<Log>, server_id: &str, model: &[(usize, String, usize)], log: &Log, mi: usize, uri: &str) -> Option<(String, String)> {
     let raw = format!("{} {} HTTP/1.1\r\n\r\n", METHODS[mi].to_str(), uri);
     let req = Request::try_from(raw.as_bytes(), None).ok()?;
     log.lock().unwrap().clear();
@@ -300,7 +314,7 @@ fn judge_dispatch(router: &HttpRoutes<Log>, model: &[(usize, String, usize)], lo
             }
         }
     }
-    if srv != "srv-under-test" || ctype != "application/json" {
+    if srv != server_id || ctype != "application/json" {
         return Some(("stamp".into(), format!("Server={:?} Content-Type={:?}", srv, ctype)));
     }
     None
@@ -334,7 +348,8 @@ fn incremental_case(ctx: &mut Ctx, prefix: &str, regs: &[(usize, usize)]) -> boo
         f = f.u((*m * 8 + *p) as u64);
     }
     let mut rng = Rng::new(f.0);
-    let mut router: HttpRoutes<Log> = HttpRoutes::new("srv-under-test".to_string(), prefix.to_string());
+    let server_id = server_id_for(prefix, regs);
+    let mut router: HttpRoutes<Log> = HttpRoutes::new(server_id.to_string(), prefix.to_string());
     let mut model: Vec<(usize, String, usize)> = Vec::new();
     let log: Log = Mutex::new(Vec::new());
     let mut fault: Option<(String, String)> = None;
@@ -344,7 +359,7 @@ fn incremental_case(ctx: &mut Ctx, prefix: &str, regs: &[(usize, usize)]) -> boo
         // before the registration: asked once or twice (a miss, or a hit on an earlier duplicate)
         for _ in 0..rng.range(1, 2) {
             ctx.rep.count("dispatches_before_the_registration");
-            if let Some(f) = judge_dispatch(&router, &model, &log, *m, &uri) {
+            if let Some(f) = judge_dispatch(&router, server_id, &model, &log, *m, &uri) {
                 fault = Some(f);
                 break 'steps;
             }
@@ -359,14 +374,14 @@ fn incremental_case(ctx: &mut Ctx, prefix: &str, regs: &[(usize, usize)]) -> boo
             model.push((*m, full, i));
         }
         ctx.rep.count("dispatches_right_after_the_registration");
-        if let Some(f) = judge_dispatch(&router, &model, &log, *m, &uri) {
+        if let Some(f) = judge_dispatch(&router, server_id, &model, &log, *m, &uri) {
             fault = Some(f);
             break;
         }
         // and the earlier routes are still in effect
         if let Some((m0, f0, _)) = model.first().cloned() {
             if !f0.is_empty() && !f0.contains(' ') {
-                if let Some(f) = judge_dispatch(&router, &model, &log, m0, &f0) {
+                if let Some(f) = judge_dispatch(&router, server_id, &model, &log, m0, &f0) {
                     fault = Some(f);
                     break;
                 }
